@@ -12,6 +12,10 @@ Section Proofs.
   Variable deqb : D -> D -> bool.
   Hypothesis keqb_spec : forall a b, keqb a b = true <-> a = b.
   Hypothesis veqb_spec : forall a b, veqb a b = true <-> a = b.
+  Variable A : Type.
+  Variable acct_of : K -> A.
+  Variable aeqb : A -> A -> bool.
+  Hypothesis aeqb_spec : forall a b, aeqb a b = true <-> a = b.
 
   Notation view := (view K V).
   Notation effects := (effects K V Out).
@@ -29,9 +33,14 @@ Section Proofs.
   Notation cb_merge := (cb_merge K V keqb).
   Notation tx_cbal := (tx_cbal K V Out keqb veqb).
   Notation to_encoding := (to_encoding K V kltb).
-  Notation overlay := (overlay K V keqb).
+  Notation overlay := (overlay K V keqb A acct_of aeqb).
   Notation apply_bal := (apply_bal K V keqb).
-  Notation bal_lookup := (bal_lookup K V keqb).
+  Notation bal_lookup := (bal_lookup K V keqb A acct_of aeqb).
+  Notation aaget := (aaget K V A aeqb).
+  Notation aaset := (aaset K V A aeqb).
+  Notation index_add := (index_add K V keqb A acct_of aeqb).
+  Notation build_lookup := (build_lookup K V keqb A acct_of aeqb).
+  Notation lookup_key := (lookup_key K V keqb A acct_of aeqb).
 
   Lemma keqb_refl k : keqb k k = true.
   Proof. apply keqb_spec; reflexivity. Qed.
@@ -43,13 +52,13 @@ Section Proofs.
   Qed.
 
   (* ---------- association lists ---------- *)
-  Lemma aget_aset_same {A} k (a : A) l : aget k (aset k a l) = Some a.
+  Lemma aget_aset_same {X} k (a : X) l : aget k (aset k a l) = Some a.
   Proof.
     induction l as [|[k0 a0] r IH]; simpl.
     - rewrite keqb_refl; reflexivity.
     - destruct (keqb k0 k) eqn:E; simpl; rewrite E; auto.
   Qed.
-  Lemma aget_aset_other {A} k k' (a : A) l : k <> k' -> aget k' (aset k a l) = aget k' l.
+  Lemma aget_aset_other {X} k k' (a : X) l : k <> k' -> aget k' (aset k a l) = aget k' l.
   Proof.
     intros N. induction l as [|[k0 a0] r IH]; simpl.
     - apply keqb_false in N. rewrite N. reflexivity.
@@ -57,7 +66,7 @@ Section Proofs.
       + apply keqb_spec in E; subst k0. apply keqb_false in N. rewrite N. reflexivity.
       + destruct (keqb k0 k'); auto.
   Qed.
-  Lemma aget_None_notin {A} k (l : list (K * A)) : aget k l = None <-> ~ In k (map fst l).
+  Lemma aget_None_notin {X} k (l : list (K * X)) : aget k l = None <-> ~ In k (map fst l).
   Proof.
     induction l as [|[k0 a0] r IH]; simpl.
     - tauto.
@@ -65,14 +74,14 @@ Section Proofs.
       + apply keqb_spec in E. split; [discriminate | intros H; exfalso; apply H; auto].
       + apply keqb_false in E. rewrite IH. tauto.
   Qed.
-  Lemma in_keys_aset {A} x k (a : A) l :
+  Lemma in_keys_aset {X} x k (a : X) l :
     In x (map fst (aset k a l)) -> x = k \/ In x (map fst l).
   Proof.
     induction l as [|[k0 a0] r IH]; simpl.
     - intros [H|[]]; auto.
     - destruct (keqb k0 k) eqn:E; simpl; [tauto|]. intros [H|H]; auto. apply IH in H. tauto.
   Qed.
-  Lemma nodup_aset {A} k (a : A) l : NoDup (map fst l) -> NoDup (map fst (aset k a l)).
+  Lemma nodup_aset {X} k (a : X) l : NoDup (map fst l) -> NoDup (map fst (aset k a l)).
   Proof.
     induction l as [|[k0 a0] r IH]; simpl; intros H.
     - constructor; [tauto | constructor].
@@ -141,9 +150,9 @@ Section Proofs.
     aget k (net v ws) = if kmem k (map fst ws) then netf v ws k else None.
   Proof.
     rewrite net_eq, aget_flat_map.
-    destruct (kmem k (dedup (map fst ws))) eqn:A, (kmem k (map fst ws)) eqn:B; auto.
-    - apply (proj1 (kmem_In _ _)) in A. apply (proj1 (in_dedup _ _)) in A.
-      apply (proj2 (kmem_In _ _)) in A. congruence.
+    destruct (kmem k (dedup (map fst ws))) eqn:HA, (kmem k (map fst ws)) eqn:B; auto.
+    - apply (proj1 (kmem_In _ _)) in HA. apply (proj1 (in_dedup _ _)) in HA.
+      apply (proj2 (kmem_In _ _)) in HA. congruence.
     - apply (proj1 (kmem_In _ _)) in B. apply (proj2 (in_dedup _ _)) in B.
       apply (proj2 (kmem_In _ _)) in B. congruence.
   Qed.
@@ -303,24 +312,24 @@ Section Proofs.
   Qed.
 
   (* ---------- sorting ---------- *)
-  Lemma in_insert_by {A} (lt : A -> A -> bool) a l x : In x (insert_by lt a l) <-> x = a \/ In x l.
+  Lemma in_insert_by {X} (lt : X -> X -> bool) a l x : In x (insert_by lt a l) <-> x = a \/ In x l.
   Proof.
     induction l as [|b r IH]; simpl.
     - intuition.
     - destruct (lt a b); simpl; [intuition|]. rewrite IH. intuition.
   Qed.
-  Lemma in_sort_by {A} (lt : A -> A -> bool) l x : In x (sort_by lt l) <-> In x l.
+  Lemma in_sort_by {X} (lt : X -> X -> bool) l x : In x (sort_by lt l) <-> In x l.
   Proof.
     induction l as [|a r IH]; simpl; [tauto|].
     unfold sort_by in *. simpl. rewrite in_insert_by, IH. intuition.
   Qed.
-  Lemma in_keys_sort_by {A} (lt : K * A -> K * A -> bool) l x :
+  Lemma in_keys_sort_by {X} (lt : K * X -> K * X -> bool) l x :
     In x (map fst (sort_by lt l)) <-> In x (map fst l).
   Proof.
     rewrite !in_map_iff. split; intros [y [E H]]; exists y; split; auto; apply in_sort_by in H || apply in_sort_by; auto.
   Qed.
 
-  Lemma aget_insert_by {A} (lt : K * A -> K * A -> bool) k0 (a : A) l k :
+  Lemma aget_insert_by {X} (lt : K * X -> K * X -> bool) k0 (a : X) l k :
     ~ In k0 (map fst l) ->
     aget k (insert_by lt (k0, a) l) = if keqb k0 k then Some a else aget k l.
   Proof.
@@ -330,7 +339,7 @@ Section Proofs.
     destruct (keqb k1 k) eqn:E1, (keqb k0 k) eqn:E0; auto.
     apply keqb_spec in E1, E0. subst. exfalso. apply H. auto.
   Qed.
-  Lemma aget_sort_by {A} (lt : K * A -> K * A -> bool) l k :
+  Lemma aget_sort_by {X} (lt : K * X -> K * X -> bool) l k :
     NoDup (map fst l) -> aget k (sort_by lt l) = aget k l.
   Proof.
     induction l as [|[k0 a0] r IH]; simpl; intros H; auto.
@@ -339,7 +348,7 @@ Section Proofs.
     - rewrite IH by assumption. reflexivity.
     - intros Hin. apply (in_keys_sort_by lt r k0) in Hin. contradiction.
   Qed.
-  Lemma aget_map {A B} (f : A -> B) l k :
+  Lemma aget_map {X B} (f : X -> B) l k :
     aget k (map (fun ka => (fst ka, f (snd ka))) l) = option_map f (aget k l).
   Proof.
     induction l as [|[k0 a0] r IH]; simpl; auto.
@@ -370,6 +379,96 @@ Section Proofs.
     destruct (aget k ch); auto.
     apply ss_cons; auto. intros [j y] Hin. apply hist_bounds in Hin.
     unfold ilt. simpl. apply N.ltb_lt. lia.
+  Qed.
+
+  (* ---------- the Lookup index ---------- *)
+  Lemma aeqb_refl a : aeqb a a = true.
+  Proof. apply aeqb_spec; reflexivity. Qed.
+  Lemma aaget_aaset_same a x l : aaget a (aaset a x l) = Some x.
+  Proof.
+    induction l as [|[a0 x0] r IH]; simpl.
+    - rewrite aeqb_refl; reflexivity.
+    - destruct (aeqb a0 a) eqn:E; simpl; rewrite E; auto.
+  Qed.
+  Lemma aaget_aaset_other a a' x l : a <> a' -> aaget a' (aaset a x l) = aaget a' l.
+  Proof.
+    intros Ne. assert (F : aeqb a a' = false).
+    { destruct (aeqb a a') eqn:E; auto. apply aeqb_spec in E. contradiction. }
+    induction l as [|[a0 x0] r IH]; simpl.
+    - rewrite F. reflexivity.
+    - destruct (aeqb a0 a) eqn:E; simpl.
+      + apply aeqb_spec in E; subst a0. rewrite F. reflexivity.
+      + destruct (aeqb a0 a'); auto.
+  Qed.
+
+  (* the change list the index holds for key k *)
+  Definition get2 (l : lookup_t K V A) (k : K) : option (list (N * V)) :=
+    match aaget (acct_of k) l with Some al => aget k al | None => None end.
+
+  Lemma get2_index_add l k0 es k :
+    get2 (index_add l (k0, es)) k = if keqb k0 k then Some es else get2 l k.
+  Proof.
+    unfold get2, Parallel.index_add. cbn [fst snd].
+    destruct (aeqb (acct_of k0) (acct_of k)) eqn:EA.
+    - apply aeqb_spec in EA. rewrite <- EA, aaget_aaset_same.
+      destruct (keqb k0 k) eqn:E.
+      + apply keqb_spec in E. subst k0. apply aget_aset_same.
+      + apply keqb_false in E. rewrite aget_aset_other by assumption.
+        destruct (aaget (acct_of k0) l); reflexivity.
+    - assert (Ne : acct_of k0 <> acct_of k).
+      { intros E. apply aeqb_spec in E. congruence. }
+      rewrite aaget_aaset_other by assumption.
+      assert (keqb k0 k = false) as ->; [|reflexivity].
+      apply keqb_false. intros ->. contradiction.
+  Qed.
+
+  Lemma get2_build w : forall l k,
+    NoDup (map fst w) ->
+    get2 (fold_left index_add w l) k
+    = match aget k w with Some es => Some es | None => get2 l k end.
+  Proof.
+    induction w as [|[k0 es] r IH]; simpl; intros l k ND; auto.
+    inversion ND as [|? ? Hn Hr]; subst.
+    rewrite IH by assumption. rewrite get2_index_add.
+    destruct (keqb k0 k) eqn:E.
+    - apply keqb_spec in E. subst k0.
+      assert (aget k r = None) as -> by (apply aget_None_notin; exact Hn). reflexivity.
+    - reflexivity.
+  Qed.
+
+  (* on a list with unique keys, every change list of every kind is served: the index
+     lookup is the plain lookup of the key's change list *)
+  Lemma bal_lookup_nodup (b : bal) k limit :
+    NoDup (map fst (b_w K V b)) ->
+    bal_lookup b k limit
+    = match aget k (b_w K V b) with Some es => search_latest V es limit None | None => None end.
+  Proof.
+    intros ND. unfold Parallel.bal_lookup, Parallel.lookup_key, Parallel.build_lookup.
+    pose proof (get2_build (b_w K V b) [] k ND) as G. unfold get2 in G at 1.
+    destruct (aaget (acct_of k) (fold_left index_add (b_w K V b) [])) as [al|].
+    - rewrite G. destruct (aget k (b_w K V b)); reflexivity.
+    - destruct (aget k (b_w K V b)); [discriminate|reflexivity].
+  Qed.
+
+  Lemma nodup_keys_insert_by {B} (lt : K * B -> K * B -> bool) x l :
+    ~ In (fst x) (map fst l) -> NoDup (map fst l) -> NoDup (map fst (insert_by lt x l)).
+  Proof.
+    induction l as [|y r IH]; simpl; intros Hn ND.
+    - constructor; auto.
+    - destruct (lt x y); simpl.
+      + constructor; auto.
+      + inversion ND; subst. constructor.
+        * intros Hin. apply in_map_iff in Hin. destruct Hin as [z [Ez Hz]].
+          apply in_insert_by in Hz. destruct Hz as [->|Hz]; [apply Hn; left; auto|].
+          apply H1. rewrite <- Ez. apply in_map. exact Hz.
+        * apply IH; auto.
+  Qed.
+  Lemma nodup_keys_sort_by {B} (lt : K * B -> K * B -> bool) l :
+    NoDup (map fst l) -> NoDup (map fst (sort_by lt l)).
+  Proof.
+    induction l as [|x r IH]; simpl; intros ND; [constructor|].
+    inversion ND; subst. unfold sort_by in *. simpl. apply nodup_keys_insert_by; auto.
+    intros Hin. apply (in_keys_sort_by lt r (fst x)) in Hin. contradiction.
   Qed.
 
   (* ---------- lookups in the encoded list ---------- *)
@@ -445,7 +544,10 @@ Section Proofs.
     built c nets ->
     bal_lookup (to_encoding c) k limit = lastchg (firstn (N.to_nat limit) nets) k None.
   Proof.
-    intros B. unfold Parallel.bal_lookup. rewrite (aget_encoding c nets k B).
+    intros B. rewrite bal_lookup_nodup.
+    2:{ destruct B as [E _]. unfold Parallel.to_encoding. cbn [Parallel.b_w].
+        apply nodup_keys_sort_by. rewrite map_map. cbn [fst]. rewrite E. apply nodup_chain. constructor. }
+    rewrite (aget_encoding c nets k B).
     pose proof (search_hist nets 0 k limit None) as S. rewrite N.sub_0_r in S.
     destruct (hist 0 nets k) eqn:Hh; simpl optl.
     - rewrite <- S. reflexivity.
@@ -481,10 +583,10 @@ Section Proofs.
   Notation seq_txs := (seq_txs K V Out keqb veqb).
   Notation acct_step := (acct_step K V Out keqb veqb).
   Notation seq_process := (seq_process K V Out keqb veqb).
-  Notation par_process := (par_process K V Out keqb veqb).
-  Notation par_acct := (par_acct K V Out keqb veqb).
-  Notation worker_exec := (worker_exec K V Out keqb).
-  Notation par_view := (par_view K V keqb).
+  Notation par_process := (par_process K V Out keqb veqb A acct_of aeqb).
+  Notation par_acct := (par_acct K V Out keqb veqb A acct_of aeqb).
+  Notation worker_exec := (worker_exec K V Out keqb A acct_of aeqb).
+  Notation par_view := (par_view K V keqb A acct_of aeqb).
   Notation b_pre := (b_pre K V Out).
   Notation b_txs := (b_txs K V Out).
   Notation b_post := (b_post K V Out).
@@ -921,8 +1023,8 @@ Section Proofs.
 
   (* ================= every schedule of the workers ================= *)
   Notation pstate := (pstate K V Out).
-  Notation pstep := (pstep K V Out keqb).
-  Notation prun := (prun K V Out keqb).
+  Notation pstep := (pstep K V Out keqb A acct_of aeqb).
+  Notation prun := (prun K V Out keqb A acct_of aeqb).
   Notation p_init := (p_init K V Out).
   Notation rget := (rget K V Out).
   Notation p_has_error := (p_has_error K V Out).
@@ -1081,7 +1183,7 @@ Section Proofs.
   Notation validate_state := (validate_state K V Out D keqb kltb deqb Hbal Hrec Hreq Hroot).
   Notation validate_body := (validate_body K V D keqb kltb deqb Hbal).
   Notation verdict_seq := (verdict_seq K V Out D keqb kltb veqb deqb Hbal Hrec Hreq Hroot).
-  Notation verdict_par := (verdict_par K V Out D keqb kltb veqb deqb Hbal Hrec Hreq Hroot).
+  Notation verdict_par := (verdict_par K V Out D keqb kltb veqb deqb A acct_of aeqb Hbal Hrec Hreq Hroot).
   Notation r_bal := (r_bal K V Out).
 
   Lemma validate_state_0 m h res st :
@@ -1274,6 +1376,7 @@ Definition ex_pre : view bkey bkey := fun _ => [].
 Definition ex_keys : list bkey := [[1]; [2]; [3]; [9]].
 
 Definition ex_vpar := verdict_par bkey bkey bkey digest bytes_eqb bytes_ltb bytes_eqb digest_eqb
+                        bkey key_acct bytes_eqb
                         DBal DRec DReq (root_on ex_keys) ex_pre ex_block.
 
 Definition c33_example_check : bool :=
@@ -1283,7 +1386,7 @@ Definition c33_example_check : bool :=
       let hd := header_of bkey bkey bkey digest bytes_ltb DBal DRec DReq (root_on ex_keys) rs in
       let B := to_encoding bkey bkey bytes_ltb (r_bal _ _ _ (fst rs)) in
       let sched := [(0%nat, Claim); (1%nat, Claim); (1%nat, Finish); (0%nat, Finish)] in
-      match prun bkey bkey bkey bytes_eqb ex_pre B (b_txs _ _ _ ex_block) (p_init _ _ _) sched with
+      match prun bkey bkey bkey bytes_eqb bkey key_acct bytes_eqb ex_pre B (b_txs _ _ _ ex_block) (p_init _ _ _) sched with
       | None => false
       | Some s =>
           let B' := Build_bal bkey bkey (b_w _ _ B) [] in
